@@ -28,10 +28,13 @@ type Transaction struct {
 	Description string
 	Payee       string
 	Note        string
-	Postings    []Posting
-	Tags        []Tag
-	Comments    []Comment
-	Range       Range
+	// PayeeRange covers the payee as written: the text before '|', or the whole
+	// description when there is no '|'. Zero when the header has no description.
+	PayeeRange Range
+	Postings   []Posting
+	Tags       []Tag
+	Comments   []Comment
+	Range      Range
 }
 
 type Date struct {
@@ -139,6 +142,8 @@ func (d CommodityDirective) GetRange() Range { return d.Range }
 type Include struct {
 	Path  string
 	Range Range
+	// PathRange covers the path only, Range the whole directive.
+	PathRange Range
 }
 
 func (Include) directive()        {}
